@@ -40,6 +40,12 @@ WATCHDOG = 2.0
 # server side
 # =====================================================================================
 
+AUTH_SCRIPTS = {
+    # the stall happens inside the AUTH exchange: after the 334 challenge(s) the client owes a response line
+    'login': [b'EHLO c.example\r\n', b'AUTH LOGIN\r\n', b'dXNlcg==\r\n', b'cGFzcw==\r\n', b'NOOP\r\n'],
+    'plain': [b'EHLO c.example\r\n', b'AUTH PLAIN\r\n', b'AHVzZXIAcGFzcw==\r\n', b'NOOP\r\n'],
+}
+
 SERVER_SCRIPT = [b'EHLO c.example\r\n', b'MAIL FROM:<s@x.example>\r\n', b'RCPT TO:<r@y.example>\r\n', b'DATA\r\n',
                  b'Subject: t\r\n\r\nbody line one\r\nbody line two\r\n', b'.\r\n', b'NOOP\r\n']
 
@@ -47,8 +53,10 @@ SERVER_SCRIPT = [b'EHLO c.example\r\n', b'MAIL FROM:<s@x.example>\r\n', b'RCPT T
 def run_server_case(case, watchdog):
     queue = sm.CaptureQueue()
     tls = case.get('tls')
+    SERVER_SCRIPT = AUTH_SCRIPTS[case['auth']] if case.get('auth') else globals()['SERVER_SCRIPT']
     edge = SmtpEdge(None, queue, hostname='edge', command_timeout=CMD_T * (4 if tls else 1), data_timeout=DATA_T * (4 if tls else 1),
-                    context=server_ctx() if tls else None, tls_immediately=bool(tls))
+                    context=server_ctx() if tls else None, tls_immediately=bool(tls),
+                    auth=([b'PLAIN', b'LOGIN'] if case.get('auth') else False))
     a, b = gsocket.socketpair()
     done = AsyncResult()
 
@@ -81,7 +89,7 @@ def run_server_case(case, watchdog):
                 steps[-1] = steps[-1] + rest[:max(1, len(rest) // 2)].rstrip(b'\r\n')
             for step in steps:
                 nonlocal_b[0].sendall(step)
-                if b'\r\n' in step and not step.startswith(SERVER_SCRIPT[4][:8]):
+                if b'\r\n' in step and not step.startswith(b'Subject:'):
                     w.read_reply(timeout=2)
             if mode == 'silent':
                 pass
@@ -144,6 +152,14 @@ def server_cases():
             yield {'family': 'server', 'after': after, 'mode': mode}
             if mode == 'silent' and after in (0, 2, 4):
                 yield {'family': 'server', 'after': after, 'mode': mode, 'tls': True}
+    for auth, script in sorted(AUTH_SCRIPTS.items()):
+        for after in range(2, len(script)):
+            for mode in ('silent', 'midline', 'trickle'):
+                for tls in (True, False):
+                    c = {'family': 'server', 'after': after, 'mode': mode, 'auth': auth}
+                    if tls:
+                        c['tls'] = True
+                    yield c
 
 
 # =====================================================================================
@@ -177,6 +193,7 @@ class StallPeer(object):
     def run(self):
         c = self.case
         lmtp = c['kind'] == 'lmtp'
+        rej = c.get('reject')
         try:
             f = self.sock.makefile('rb')
             self.reply('banner', b'220 peer ready\r\n')
@@ -207,18 +224,27 @@ class StallPeer(object):
                     self.reply('AUTH', b'235 ok\r\n')
                 elif verb == b'MAIL':
                     nrcpt = 0
-                    self.reply('MAIL', b'250 2.1.0 ok\r\n')
+                    self.reply('MAIL', b'550 5.7.1 no\r\n' if rej == 'mail' else b'250 2.1.0 ok\r\n')
                 elif verb == b'RCPT':
                     nrcpt += 1
-                    self.reply('RCPT', b'250 2.1.5 ok\r\n')
+                    if rej == 'mail':
+                        self.sock.sendall(b'503 5.5.1 no sender\r\n')
+                    else:
+                        self.reply('RCPT', b'550 5.1.1 no\r\n' if rej == 'rcpt' else b'250 2.1.5 ok\r\n')
                 elif verb == b'DATA':
+                    if rej in ('mail', 'rcpt'):
+                        self.sock.sendall(b'503 5.5.1 no recipients\r\n')
+                        continue
                     self.reply('DATA', b'354 go\r\n')
                     while True:
                         l = f.readline()
                         if not l or l == b'.\r\n':
                             break
-                    for _ in range(nrcpt if lmtp else 1):
-                        self.reply('EOD', b'250 2.0.0 queued\r\n')
+                    for k in range(nrcpt if lmtp else 1):
+                        if rej == 'eod' or (rej == 'eod-mixed' and k == nrcpt - 1):
+                            self.reply('EOD', b'450 4.2.0 later\r\n')
+                        else:
+                            self.reply('EOD', b'250 2.0.0 queued\r\n')
                 elif verb == b'RSET':
                     self.reply('RSET', b'250 ok\r\n')
                 elif verb == b'QUIT':
@@ -400,6 +426,13 @@ def client_cases():
                         if nrcpt == 2 and stage not in ('RCPT', 'EOD', 'DATA'):
                             continue
                         yield {'family': 'client', 'kind': kind, 'pipelining': pipelining, 'stage': stage, 'mode': mode, 'nrcpt': nrcpt}
+            # the transaction is reset only after a rejected message: stall at that RSET
+            for reject in ('mail', 'rcpt', 'eod', 'eod-mixed'):
+                if reject == 'eod-mixed' and kind != 'lmtp':
+                    continue
+                for mode in ('silent', 'trickle'):
+                    yield {'family': 'client', 'kind': kind, 'pipelining': pipelining, 'stage': 'RSET', 'mode': mode,
+                           'nrcpt': 2 if reject == 'eod-mixed' else 1, 'reject': reject}
 
 
 # =====================================================================================
@@ -490,7 +523,84 @@ def run_http_case(case, watchdog):
     return out, True
 
 
+def run_http_reuse_case(case, watchdog):
+    """The first request on a kept-alive connection is answered, but its response body never completes; the second attempt re-uses
+    the connection and must still end within the relay timeout."""
+    conns = []
+
+    def handle(sock, addr):
+        conns.append(sock)
+        try:
+            f = sock.makefile('rb')
+            n = 0
+            while True:
+                line = f.readline()
+                if not line:
+                    return
+                length = 0
+                while line not in (b'\r\n', b'\n', b''):
+                    if line.lower().startswith(b'content-length:'):
+                        length = int(line.split(b':')[1])
+                    line = f.readline()
+                f.read(length)
+                n += 1
+                if n == 1:
+                    status = b'200 OK' if case['first'] == 'ok' else b'503 Busy'
+                    sock.sendall(b'HTTP/1.1 ' + status + b'\r\nX-Smtp-Reply: ' + (b'250' if case['first'] == 'ok' else b'450') +
+                                 b'; message="m"\r\nContent-Length: 100000\r\n\r\n' + b'y' * 10)
+                    if case['mode'] == 'trickle':
+                        for _ in range(5000):
+                            sock.sendall(b'y')
+                            gevent.sleep(0.02)
+                    gevent.sleep(3600)
+                else:
+                    sock.sendall(b'HTTP/1.1 200 OK\r\nX-Smtp-Reply: 250; message="m"\r\nContent-Length: 0\r\n\r\n')
+        except Exception:
+            pass
+    server = StreamServer(('127.0.0.1', 0), handle)
+    server.start()
+    relay = HttpRelay('http://127.0.0.1:%d/' % server.server_port, timeout=0.1, ehlo_as='relay.example', idle_timeout=2.0, pool_size=1)
+    out = []
+    t0 = time.time()
+    g = None
+    try:
+        try:
+            relay.attempt(c11.make_env(1, 'h1'), 0)
+        except RelayError:
+            pass
+        got = AsyncResult()
+
+        def go():
+            try:
+                got.set(('ok', relay.attempt(c11.make_env(1, 'h2'), 0)))
+            except BaseException as e:
+                got.set(('exc', e))
+        g = gevent.spawn(go)
+        g.join(timeout=watchdog)
+        if not got.ready():
+            out.append(('C14:http-attempt-outlives-timeout:reuse-%s' % case['mode'],
+                        '%r: second attempt on the kept-alive connection still blocked after %.1f s' % (case, time.time() - t0)))
+        else:
+            kind, res = got.get()
+            if kind == 'exc' and not isinstance(res, RelayError):
+                out.append(('C14:stalled-attempt-not-transient:http-reuse', '%r: %r' % (case, res)))
+    finally:
+        if g is not None and not g.dead:
+            g.kill(block=False)
+        kill_relay(relay)
+        server.stop()
+        for s_ in conns:
+            try:
+                s_.close()
+            except Exception:
+                pass
+    return out, True
+
+
 def other_cases():
+    for first in ('ok', 'error'):
+        for mode in ('silent', 'trickle'):
+            yield {'family': 'http-reuse', 'first': first, 'mode': mode}
     for per in (True, False):
         yield {'family': 'pipe', 'per_recipient': per}
     for mode in ('silent', 'trickle', 'trickle-headers'):
@@ -498,7 +608,7 @@ def other_cases():
 
 
 RUN = {'server': run_server_case, 'client': run_client_case, 'client-idle': run_client_idle_case, 'pipe': run_pipe_case,
-       'http': run_http_case}
+       'http': run_http_case, 'http-reuse': run_http_reuse_case}
 
 
 def run_shard(ctx):
@@ -526,15 +636,23 @@ def replay(case):
         return []
     try:
         if fam == 'server':
-            case = dict(case, after=max(0, min(len(SERVER_SCRIPT) - 1, int(case['after']))))
+            if case.get('auth') not in (None, 'login', 'plain'):
+                return []
+            script = AUTH_SCRIPTS[case['auth']] if case.get('auth') else SERVER_SCRIPT
+            case = dict(case, after=max(0, min(len(script) - 1, int(case['after']))))
             if case.get('mode') not in ('silent', 'midline', 'trickle', 'pipelined-partial'):
                 return []
         elif fam == 'client':
             if case.get('stage') not in CLIENT_STAGES or case.get('kind') not in ('smtp', 'lmtp') or case.get('mode') not in ('silent', 'trickle'):
                 return []
             case = dict(case, nrcpt=max(1, min(2, int(case.get('nrcpt', 1)))), pipelining=bool(case.get('pipelining')))
+            if case.get('reject') not in (None, 'mail', 'rcpt', 'eod', 'eod-mixed'):
+                return []
         elif fam == 'http' and case.get('mode') not in ('silent', 'trickle', 'trickle-headers'):
             return []
+        elif fam == 'http-reuse':
+            if case.get('first') not in ('ok', 'error') or case.get('mode') not in ('silent', 'trickle'):
+                return []
         elif fam == 'client-idle':
             if case.get('kind') not in ('smtp', 'lmtp') or not isinstance(case.get('partial'), str) or case['partial'].endswith('\n'):
                 return []
